@@ -1,6 +1,6 @@
 """C04 - undoing a move restores the position exactly."""
 from .common import sim_rules
-from . import apirules
+from . import apirules, shared
 
 
 def run(ctx):
@@ -23,3 +23,4 @@ def run(ctx):
     })
     apirules.dispatch_rule(ctx, facts, "K4")
     apirules.make_impl_rules(ctx, facts, "K5c", "K5")
+    shared.walker_component(ctx, facts, "K6", "the chain and its walker are the library's own users of undo: they must unmake exactly the moves they pass, in order")
